@@ -455,6 +455,19 @@ impl LightClientProtocol {
         self.mmr_activated_epoch
     }
 
+    /// Overrides the tuning constants (verification harness only).
+    #[cfg(feature = "verif")]
+    pub(crate) fn verif_set_knobs(
+        &mut self,
+        last_n_blocks: BlockNumber,
+        mmr_activated_epoch: EpochNumber,
+        init_blocks_in_transit_per_peer: usize,
+    ) {
+        self.last_n_blocks = last_n_blocks;
+        self.mmr_activated_epoch = mmr_activated_epoch;
+        self.init_blocks_in_transit_per_peer = init_blocks_in_transit_per_peer;
+    }
+
     pub(crate) fn check_pow_for_headers<'a, T: Iterator<Item = &'a HeaderView>>(
         &self,
         headers: T,
